@@ -551,6 +551,34 @@ def conditioned_circuits(N):
                                    dict(h2("ISWAP", a, b), cc=[1], ccv=0)]
 
 
+def conditioned_next_to_ladder(N, setups=("linear", "circular")):
+    """(kind, setup, gate list): a CONDITIONED gate on neighbouring qubits directly before / after a far gate whose swap
+    ladder starts or ends on the same pair (a pass that merges or cancels neighbouring SWAPs must respect the
+    condition); both condition values, to be judged for every classical state"""
+    ring = lambda q: q % N
+    for a, b in itertools.combinations(range(N), 2):
+        if b - a < 2:
+            continue
+        pairs = {(a, a + 1), (b - 1, b)}
+        for setup in setups:
+            near = set(pairs)
+            if setup == "circular":
+                near |= {(b, ring(b + 1)), (ring(a - 1), a)}        # the way round the ring starts there
+            for far in ([h2("CNOT", a, b)], [h2("CNOT", b, a)], [h2("ISWAP", b, a)]):
+                for (x, y) in sorted(near):
+                    if x == y:
+                        continue
+                    for name in ("SWAP", "CNOT"):
+                        for ccv in (0, 1):
+                            g = dict(h2(name, x, y), cc=[0], ccv=ccv)
+                            yield "conditioned-before-ladder", setup, [g] + far
+                            yield "conditioned-after-ladder", setup, far + [g]
+        # between two far gates on the same pair: swap-out, conditioned SWAP, swap-in
+        for setup in setups:
+            g = dict(h2("SWAP", a, a + 1), cc=[0], ccv=1)
+            yield "conditioned-between-ladders", setup, [h2("CNOT", a, b), g, h2("CNOT", b, a)]
+
+
 def fresh_fails(w, timeout=300):
     """check_property(w) in a FRESH interpreter (same tree, nothing routed before) -> (fails | None, detail)"""
     return _fresh.fresh_fails("c07", w, timeout)
@@ -806,11 +834,16 @@ class C07(PropertyCheck):
                     ws.append(dict(circ(N, "linear", gates, api="adjacent"), _kind=kind))
             n_cond += len(ws)
             self._compare(ctx, res, ws, lambda w: (True, ["conditioned", "conditioned=" + w["_kind"], f"api={w['api']}"]))
+        for N in range(3, (9 if ctx.thorough else 7) + 1):
+            ws = [dict(circ(N, setup, gates), _kind=kind) for kind, setup, gates in conditioned_next_to_ladder(N)]
+            n_cond += len(ws)
+            self._compare(ctx, res, ws, lambda w: (True, ["conditioned", "conditioned=" + w["_kind"], f"api={w['api']}"]))
         res.notes.append(f"systematic: {n_sys} multi-gate circuits (every pair a<b of every register N <= {maxM}, both "
                          "topologies, adjacent_gates for N <= 6: both orientations, repeats, same pair under other names / "
                          f"arguments, exchange gates before/after controlled gates), {n_hist} histories of 2-4 calls in one "
                          f"process (orientations, setups, sizes, APIs, same object twice), {n_cond} circuits with "
-                         "conditioned handled gates; model variant for the classical condition read from the source: "
+                         "conditioned handled gates (incl. conditioned SWAP / CNOT on neighbours directly before / after a far gate whose "
+                         "ladder starts or ends on the same pair, both condition values, N <= 7); model variant for the classical condition read from the source: "
                          + ("kept (fixes/C07-5 applied)" if variant_cc() else "dropped (fixes/C07-5 not applied)"))
         n_multi = 6000 if ctx.thorough else 1200
         ws = [random_circuit(rng, maxN=24 if ctx.thorough else 12) for _ in range(n_multi)]
@@ -871,6 +904,9 @@ class C07(PropertyCheck):
             for kind, gates in conditioned_circuits(N):
                 for setup in ("linear", "circular"):
                     yield circ(N, setup, gates)
+        for N in range(3, hist_maxN + 1):
+            for kind, setup, gates in conditioned_next_to_ladder(N):
+                yield circ(N, setup, gates)
 
     def oracle_search(self, ctx, budget_s):
         t0 = time.time()
